@@ -384,6 +384,8 @@ func cmdXform(args []string) int {
 		}(i)
 	}
 	wg.Wait()
+	// a case that did not return while many ran in parallel is repeated alone with a three times longer bound; only that counts
+	rerunHungCases(evs, "fwd", func(i int) tr.Ev { return runXform(cases[i]) })
 	w, err := tr.Open(*out)
 	if err != nil {
 		return 2
